@@ -75,6 +75,28 @@ bool judge(const Inst &in, Report &R, bool haveOpt, i128 opt, bool &nontrivial) 
   }
   int ns = cap.size(), nd = dem.size();
   if (dem != in.dem) return R.fail("demands changed");
+  if (!in.isFloat) {
+    // "minimal" means minimal for the costs the caller supplied, whatever the solver keeps internally
+    costs = in.icost;
+  } else {
+    // the fixed-point representation must keep, for every source, the cost differences between
+    // sinks (a common factor and per-source offsets do not change which plans are minimal; anything
+    // else does), up to its rounding
+    double maxF = 0;
+    for (auto &r : in.fcost)
+      for (float f : r) maxF = std::max(maxF, (double)std::fabs(f));
+    TransportationProblem probe(in.cap, in.dem, in.fcost);
+    for (int j = 0; j < nd; ++j)
+      for (int i = 1; i < ns; ++i) {
+        double got = probe.originalCost(i, j) - probe.originalCost(0, j);
+        double want = (double)in.fcost[i][j] - (double)in.fcost[0][j];
+        if (std::fabs(got - want) > 2e-6 * maxF + 1e-30) {
+          std::ostringstream s;
+          s << "float costs of source " << j << ": sink " << i << " minus sink 0 is " << want << " but is represented as " << got;
+          return R.fail(s.str());
+        }
+      }
+  }
   if ((int)alloc.size() != ns) return R.fail("allocation shape");
   i128 total = 0;
   for (int i = 0; i < ns; ++i) {
